@@ -1,6 +1,6 @@
 """C20 -- bit-mask bookkeeping of virtual and classical registers is exact for every mask."""
 from lib import *
-import generic, audit, opscheck
+import generic, audit, opscheck, regcheck
 from generic import Case
 from coqio import cN, cnat, clist
 from opsmain import tier_seed
@@ -176,9 +176,22 @@ if __name__ == "__main__":
     ocs = ops_struct_cases(run.rng, tier)
     n2, dis2 = opscheck.run_cases(run, binary, ocs, PROP + "ops", relation="C20 h/qft_swapped structure on full-width masks",
                                   theorem_hint="C20_walk", deadline=3.0)
+    # views of registers with a past (grown, shrunk, regrown, multiplied, measured): "a view of a quantum register
+    # exists exactly when the mask lies inside the register" must not depend on how the register came to its size
+    def observe(r, k):
+        full = (1 << k) - 1
+        masks = [0, full, full + 1, (full << 1) | 1, 1 << (k + 2), r.randrange(1 << (k + 2)), r.randrange(1 << (k + 3)), 4, 7, 8]
+        return [("dump",), ("vreglen",)] + [("view", m) for m in masks]
+    vhs = regcheck.lifecycle_histories(run.rng, tier, observe, sizes=(0, 1, 2, 3, 4, 5))
+    vhs += [(0, [("new", k), ("dump",), ("vreglen",)] + [("view", m) for m in (0, (1 << k) - 1, 1 << k, 5, 1 << 63)]) for k in range(0, 7)]
+    n3, dis3, _ = regcheck.run_histories(run, binary, vhs, PROP + "views", regcheck.oracle_views,
+                                         "C20 views (get_vreg / get_vreg_by) of registers with a construction history", "C20_vreg")
+    cs += [generic.Case(regcheck.hist_harness(s, a)[:300], None, None, None, kind="regview") for s, a in vhs]
+    n2 += n3; dis2 = dis2 + dis3
     generic.finish(run, PROP, au, cs, n + n2, dis + dis2,
                    "all masks below 2^8 (2^10), all one-bit and a grid of two-bit masks of the 64-bit word, random sparse/dense "
                    "words with and without the top bit (each call under a 3 s deadline); VReg::new for 0..65 and beyond; index "
                    "forms (closure, array, range); sub-views; CReg update sequences (<= 30 steps) with initial values wider "
-                   "than the register; CReg products; h/qft_swapped structure on full-width masks",
+                   "than the register; CReg products; h/qft_swapped structure on full-width masks; get_vreg / get_vreg_by on registers "
+                   "that were grown, shrunk, regrown, multiplied or measured before",
                    assumptions=["masks are machine words (< 2^64); the 64-bit wrap is written into the model"])
